@@ -164,10 +164,10 @@ func (securityAssociation *SecurityAssociation) Unmarshal(b []byte) error {
 		proposal.ProposalNumber = b[4]
 		proposal.ProtocolID = b[5]
 
-		spiSize := b[6]
+		spiSize := int(b[6])
 		if spiSize > 0 {
 			// bounds checking
-			if len(b) < int(8+spiSize) {
+			if int(proposalLength) < 8+spiSize {
 				return errors.Errorf("Proposal: No sufficient bytes for unmarshalling SPI of proposal")
 			}
 			proposal.SPI = append(proposal.SPI, b[8:8+spiSize]...)
